@@ -37,7 +37,11 @@ pub mod prelude {
     pub use serde_json::json;
 }
 
-pub const VERIF_ROOT: &str = "/verif";
+/// Root under which evidence/, replays/ and known_findings.json live (`VERIF_ROOT` env overrides,
+/// used only by scratch copies of the harness during development).
+pub fn verif_root() -> String {
+    std::env::var("VERIF_ROOT").unwrap_or_else(|_| "/verif".to_string())
+}
 pub const SHARDS: usize = 16;
 const MAX_SAMPLES_PER_LABEL: usize = 2;
 const MAX_SAMPLES: usize = 12;
@@ -472,7 +476,7 @@ impl Ctx {
             .ok()
             .and_then(|s| s.trim().parse::<i64>().ok().map(|v| v as u64).or_else(|| s.trim().parse::<u64>().ok()))
             .unwrap_or(0);
-        let known: Vec<KnownFinding> = std::fs::read_to_string(format!("{VERIF_ROOT}/known_findings.json"))
+        let known: Vec<KnownFinding> = std::fs::read_to_string(format!("{}/known_findings.json", verif_root()))
             .ok()
             .and_then(|s| serde_json::from_str::<Value>(&s).ok())
             .and_then(|v| v.get("findings").cloned())
@@ -547,7 +551,7 @@ impl Ctx {
     }
 
     fn record_violation<R: Serialize + Debug>(&mut self, sub: &str, f: &Failure, recipe: &R) {
-        let dir = format!("{VERIF_ROOT}/replays");
+        let dir = format!("{}/replays", verif_root());
         let _ = std::fs::create_dir_all(&dir);
         let case = serde_json::to_value(recipe).unwrap_or(Value::Null);
         let d = digest_bytes(format!("{sub}{case}").as_bytes());
@@ -942,7 +946,7 @@ impl Ctx {
             "violations": self.violations.len(),
         });
         if self.replay.is_none() && self.only.is_none() {
-            let dir = format!("{VERIF_ROOT}/evidence");
+            let dir = format!("{}/evidence", verif_root());
             let _ = std::fs::create_dir_all(&dir);
             let path = format!("{dir}/{}.json", self.prop);
             if let Err(e) = std::fs::write(&path, serde_json::to_string_pretty(&ev).unwrap()) {
